@@ -18,8 +18,9 @@ SPEC = {
                    "out-of-line payloads are the C20 codec. Tie: the `kv` stream inserts generated keys/values through the public API into "
                    "DbMemory, DbFile and the memory-mapped Db, reads them back (plain select and select-by-key), reopens the files and reads "
                    "again; outputs are compared with the model, and the oracle checks bit-for-bit equality on the real code."),
-    "level_note": ("Trusted: Lean kernel; model faithfulness (DbValueIndex is crate-private, so its byte layout is validated only through "
-                   "behaviour, not byte-for-byte); the abstract store stands for Storage<D> (insert_bytes returns a fresh non-zero index, "
+    "level_note": ("Trusted: Lean kernel; model faithfulness (DbValueIndex is crate-private: its byte layout is compared byte for byte — "
+                   "`vrt`/`vld` ops, incl. damaged indexes and the panic sites of load_db_value — only when the tree carries the optional "
+                   "hook proposed_hooks/codec-value-index.diff, otherwise it is validated through behaviour only); the abstract store stands for Storage<D> (insert_bytes returns a fresh non-zero index, "
                    "value_as_bytes returns what was inserted — the storage layer's own properties C04/C05); persistence across reopen is "
                    "exercised by the harness only; std: from_utf8_lossy is the identity on valid UTF-8, f64 le-bytes bit-exact."),
     "technique": "Lean 4 proof over the concrete 16-byte index representation + abstract store; differential + oracle through the public API on three storage variants with reopen",
